@@ -460,7 +460,50 @@ def canon_shapes(tree):
     (plain local, integer literal).  One spelling per meaning, so that the
     rules need to know only one."""
     n_if = n_aug = 0
+    from .inline import literal_attr_calls
+    literal_attr_calls(tree)
     for node in ast.walk(tree):
+        # `with A, B: body` is `with A: with B: body`; the nested spelling is
+        # the canonical one (every `with` has exactly one item)
+        # `''.join([f(x) for x in xs])` is `''.join(f(x) for x in xs)`
+        if isinstance(node, ast.Call) and len(node.args) == 1 and \
+                not node.keywords and isinstance(node.args[0], ast.ListComp) \
+                and ((isinstance(node.func, ast.Attribute)
+                      and node.func.attr == "join")
+                     or (isinstance(node.func, ast.Name) and node.func.id in (
+                         "any", "all", "sum", "min", "max", "tuple", "list",
+                         "set", "frozenset", "sorted", "bytes",
+                         "bytearray"))):
+            lc = node.args[0]
+            node.args[0] = ast.copy_location(ast.GeneratorExp(
+                elt=lc.elt, generators=lc.generators), lc)
+        # a length is an integer: `len(x) >= 15` is `len(x) > 14`
+        if isinstance(node, ast.Compare) and len(node.ops) == 1 and \
+                isinstance(node.ops[0], (ast.GtE, ast.LtE)) and isinstance(
+                    node.left, ast.Call) and isinstance(
+                        node.left.func, ast.Name) and \
+                node.left.func.id == "len" and isinstance(
+                    node.comparators[0], ast.Constant) and type(
+                        node.comparators[0].value) is int:
+            k = node.comparators[0].value
+            if isinstance(node.ops[0], ast.GtE):
+                node.ops = [ast.Gt()]
+                node.comparators = [ast.copy_location(
+                    ast.Constant(value=k - 1), node.comparators[0])]
+            else:
+                node.ops = [ast.Lt()]
+                node.comparators = [ast.copy_location(
+                    ast.Constant(value=k + 1), node.comparators[0])]
+        cur = node
+        while isinstance(cur, (ast.With, ast.AsyncWith)) and len(
+                cur.items) > 1:
+            inner = type(cur)(items=cur.items[1:], body=cur.body)
+            ast.copy_location(inner, cur.items[1].context_expr)
+            inner.end_lineno = getattr(cur, "end_lineno", None)
+            inner.end_col_offset = getattr(cur, "end_col_offset", None)
+            cur.items = cur.items[:1]
+            cur.body = [inner]
+            cur = inner
         if isinstance(node, (ast.If, ast.While)) and isinstance(
                 node.test, ast.UnaryOp) and isinstance(
                     node.test.op, ast.Not) and isinstance(
@@ -531,7 +574,50 @@ class _Fold(ast.NodeTransformer):
                 return node
             if abs(v) < 1 << 70:
                 return ast.copy_location(ast.Constant(v), node)
-        return node
+        return self._collect(node)
+
+    def _collect(self, node):
+        """`0x600 + 0x10 * i + 0xc` is `0x60c + 0x10 * i`: the integer
+        literals of one additive chain are gathered where the first of
+        them stands"""
+        if not isinstance(node.op, (ast.Add, ast.Sub)):
+            return node
+        terms = []
+
+        def flat(e, sign):
+            if isinstance(e, ast.BinOp) and isinstance(
+                    e.op, (ast.Add, ast.Sub)):
+                flat(e.left, sign)
+                # a - (b + c) is not re-associated: only left chains
+                terms.append((sign if isinstance(e.op, ast.Add) else -sign,
+                              e.right))
+            else:
+                terms.append((sign, e))
+        flat(node, 1)
+        consts = [i for i, (sg, t) in enumerate(terms) if self._int(t)]
+        if len(consts) < 2 or len(consts) == len(terms):
+            return node
+        total = sum(terms[i][0] * terms[i][1].value for i in consts)
+        first = consts[0]
+        new = []
+        for i, (sg, t) in enumerate(terms):
+            if i == first:
+                if total:
+                    new.append((1 if total > 0 or i == 0 else -1,
+                                ast.Constant(total if total > 0 or i == 0
+                                             else -total)))
+            elif i not in consts:
+                new.append((sg, t))
+        if new[0][0] < 0:
+            # keep a leading positive term: give up on exotic chains
+            return node
+        out = new[0][1]
+        for sg, t in new[1:]:
+            out = ast.BinOp(left=out, op=ast.Add() if sg > 0 else ast.Sub(),
+                            right=t)
+        ast.copy_location(out, node)
+        ast.fix_missing_locations(out)
+        return out
 
     def visit_UnaryOp(self, node):
         self.generic_visit(node)
@@ -545,6 +631,55 @@ class _Fold(ast.NodeTransformer):
 
 def fold_constants(tree):
     return _Fold().visit(tree)
+
+
+def _literal_truth(e):
+    """truth of a test made of literals only (`None is not None`, left
+    behind where a helper was inlined with a constant argument)"""
+    if isinstance(e, ast.Constant):
+        return bool(e.value)
+    if isinstance(e, ast.UnaryOp) and isinstance(e.op, ast.Not):
+        v = _literal_truth(e.operand)
+        return None if v is None else not v
+    if isinstance(e, ast.Compare) and len(e.ops) == 1 and isinstance(
+            e.left, ast.Constant) and isinstance(e.comparators[0],
+                                                 ast.Constant):
+        a, b = e.left.value, e.comparators[0].value
+        op = e.ops[0]
+        small = lambda x: x is None or isinstance(x, (bool, int))
+        if isinstance(op, (ast.Is, ast.IsNot)) and small(a) and small(b):
+            same = (a is b) or (type(a) is type(b) and a == b)
+            return same == isinstance(op, ast.Is)
+        if isinstance(op, (ast.Eq, ast.NotEq)):
+            try:
+                return (a == b) == isinstance(op, ast.Eq)
+            except Exception:
+                return None
+    return None
+
+
+def drop_dead_branches(tree):
+    """`if <literal test>: A else: B` is A or B"""
+    n = 0
+    for node in ast.walk(tree):
+        for fld in ("body", "orelse", "finalbody"):
+            lst = getattr(node, fld, None)
+            if not isinstance(lst, list) or not lst or not isinstance(
+                    lst[0], ast.stmt):
+                continue
+            out = []
+            for st in lst:
+                v = _literal_truth(st.test) if isinstance(st, ast.If) \
+                    else None
+                if v is None:
+                    out.append(st)
+                else:
+                    out.extend(st.body if v else st.orelse)
+                    n += 1
+            if not out:
+                out = [ast.copy_location(ast.Pass(), lst[0])]
+            lst[:] = out
+    return n
 
 
 def _leaves(stmts):
@@ -664,8 +799,8 @@ def canon_flow(tree):
                             st.body[0], ast.While) and isinstance(
                                 st.body[0].test, ast.Constant) and \
                         st.body[0].test.value is True and not \
-                        st.body[0].orelse and isinstance(
-                            st.body[0].body[-1], ast.Break) and sum(
+                        st.body[0].orelse and _tail_break(
+                            st.body[0].body) is not None and sum(
                                 1 for x in ast.walk(st.body[0])
                                 if isinstance(x, ast.Break)) == 1 and not any(
                                     isinstance(x, (ast.For, ast.AsyncFor,
@@ -673,9 +808,13 @@ def canon_flow(tree):
                                     for b_ in st.body[0].body
                                     for x in ast.walk(b_)):
                     # a retry loop at the head of a retry loop: its
-                    # `continue` starts the outer body over just the same
+                    # `continue` (or falling off its end) starts the outer
+                    # body over just the same; where it leaves, the rest of
+                    # the outer body follows
                     inner = st.body[0]
-                    st.body[0:1] = inner.body[:-1]
+                    blk = _tail_break(inner.body)
+                    blk[-1:] = st.body[1:]
+                    st.body[:] = inner.body
                     n += 1
                     changed = True
                     continue
@@ -746,11 +885,147 @@ def canon_flow(tree):
     return n
 
 
+def _tail_break(block):
+    """the statement list whose last statement is a `break` in tail
+    position of `block` (reached through trailing ifs only)"""
+    if not block:
+        return None
+    last = block[-1]
+    if isinstance(last, ast.Break):
+        return block
+    if isinstance(last, ast.If):
+        return _tail_break(last.body) or _tail_break(last.orelse)
+    return None
+
+
+def _own_continue(loop):
+    """does a `continue` bound to this loop occur in its body"""
+    todo = list(loop.body)
+    while todo:
+        x = todo.pop()
+        if isinstance(x, ast.Continue):
+            return True
+        if isinstance(x, FUNC + (ast.ClassDef, ast.While, ast.For,
+                                 ast.AsyncFor, ast.Lambda)):
+            continue
+        todo.extend(ast.iter_child_nodes(x))
+    return False
+
+
+def unwrap_genexp_loops(tree):
+    """`for T in (E for V in I if C): B` is `for V in I: if C: T = E; B`
+    (one generator, lazily consumed, no name of V bound elsewhere in the
+    function).  With E a plain name of V the loop variable simply takes
+    T's name."""
+    n = 0
+    for func in [x for x in ast.walk(tree) if isinstance(x, FUNC)]:
+        for owner in ast.walk(func):
+            for fld in ("body", "orelse", "finalbody"):
+                lst = getattr(owner, fld, None)
+                if not isinstance(lst, list):
+                    continue
+                for st in lst:
+                    if not (isinstance(st, ast.For) and isinstance(
+                            st.iter, ast.GeneratorExp) and len(
+                                st.iter.generators) == 1 and not
+                            st.iter.generators[0].is_async and not
+                            st.orelse):
+                        continue
+                    g = st.iter.generators[0]
+                    vnames = {x.id for x in ast.walk(g.target)
+                              if isinstance(x, ast.Name)}
+                    tnames = {x.id for x in ast.walk(st.target)
+                              if isinstance(x, ast.Name)}
+                    inside = {id(x) for x in ast.walk(st.iter)}
+                    clash = any(isinstance(x, ast.Name) and x.id in vnames
+                                and id(x) not in inside
+                                for x in ast.walk(func))
+                    if clash or any(isinstance(x, (
+                            ast.Await, ast.Yield, ast.YieldFrom,
+                            ast.NamedExpr)) for x in ast.walk(st.iter)):
+                        continue
+                    elt = st.iter.elt
+                    body = st.body
+                    if isinstance(elt, ast.Name) and elt.id in vnames and \
+                            isinstance(st.target, ast.Name):
+                        for x in ast.walk(g.target):
+                            if isinstance(x, ast.Name) and x.id == elt.id:
+                                x.id = st.target.id
+                        for c in g.ifs:
+                            for x in ast.walk(c):
+                                if isinstance(x, ast.Name) and \
+                                        x.id == elt.id:
+                                    x.id = st.target.id
+                    else:
+                        bind = ast.Assign(targets=[st.target], value=elt)
+                        ast.copy_location(bind, st)
+                        body = [bind] + body
+                    for c in reversed(g.ifs):
+                        body = [ast.copy_location(
+                            ast.If(test=c, body=body, orelse=[]), st)]
+                    for x in ast.walk(g.target):
+                        if hasattr(x, "ctx"):
+                            x.ctx = ast.Store()
+                    st.target = g.target
+                    st.iter = g.iter
+                    st.body = body
+                    ast.fix_missing_locations(st)
+                    n += 1
+    return n
+
+
+def rotate_loops(tree):
+    """`P; while c: B; P` (the test's input is fetched before the loop and
+    again at the end of every round) is `while True: P; if not c: break;
+    B` - the mid-test spelling is the canonical one.  At the very end of a
+    function leaving the loop is returning."""
+    n = 0
+    for owner in [x for x in ast.walk(tree)]:
+        for fld in ("body", "orelse", "finalbody"):
+            lst = getattr(owner, fld, None)
+            if not isinstance(lst, list) or not lst or not isinstance(
+                    lst[0], ast.stmt):
+                continue
+            i = 0
+            while i < len(lst):
+                st = lst[i]
+                if isinstance(st, ast.While) and not st.orelse and not (
+                        isinstance(st.test, ast.Constant)) and \
+                        not _own_continue(st):
+                    k = 0
+                    while k < min(i, len(st.body)) and ast.dump(
+                            lst[i - k - 1]) == ast.dump(st.body[-k - 1]):
+                        k += 1
+                    if k:
+                        pre = lst[i - k:i]
+                        last = isinstance(owner, FUNC) and fld == "body" \
+                            and i == len(lst) - 1
+                        leave = ast.Return(value=None) if last \
+                            else ast.Break()
+                        guard = ast.If(test=negate(st.test), body=[leave],
+                                       orelse=[])
+                        ast.copy_location(guard, st)
+                        ast.copy_location(leave, st)
+                        loop = ast.While(
+                            test=ast.Constant(value=True),
+                            body=pre + [guard] + st.body[:len(st.body) - k],
+                            orelse=[])
+                        ast.copy_location(loop, pre[0])
+                        loop.end_lineno = getattr(st, "end_lineno", None)
+                        ast.fix_missing_locations(loop)
+                        lst[i - k:i + 1] = [loop]
+                        i -= k
+                        n += 1
+                i += 1
+    return n
+
+
 def normalize(tree, modname):
     from . import inline
     ref = reference()
     info = {"noise_removed": strip_noise(tree)}
     info["reshaped"] = canon_shapes(tree)
+    info["rotated"] = rotate_loops(tree) + unwrap_genexp_loops(tree)
     if os.environ.get("SA_CANON_FLOW", "1") == "1":
         info["flow"] = canon_flow(tree)
         canon_shapes(tree)
@@ -765,23 +1040,34 @@ def normalize(tree, modname):
         info["helpers_inlined"] += inline.inline_namedtuples(tree, modname,
                                                              ref)
         # inlining may have produced `if not c: ... else: ...` again
+        if info["helpers_inlined"] and os.environ.get(
+                "SA_CANON_FLOW", "1") == "1":
+            canon_flow(tree)
         canon_shapes(tree)
         strip_noise(tree)
+        for _ in range(3):
+            if not drop_dead_branches(tree):
+                break
     fold_constants(tree)
     info["renamed"] = recover_names(tree, modname, ref)
     if "functions" in ref:
         n = 0
         locs = ref.get("locals", {})
         known_funcs = set(ref["functions"])
+        # the inliner of temporaries orders assignments and uses by position
+        renumber(tree)
         for q, func in function_table(tree, modname).items():
             if q in known_funcs:
                 n += inline.unroll_literal_loops(func, set(locs.get(q, [])))
+                n += inline.coalesce_aliases(func, set(locs.get(q, [])))
                 n += inline.inline_temporaries(func, set(locs.get(q, [])))
                 n += inline.inline_block_temporaries(
                     func, set(locs.get(q, [])))
                 n += inline.inline_temporaries(func, set(locs.get(q, [])))
         info["temporaries_inlined"] = n
         if n:
+            canon_shapes(tree)
+            fold_constants(tree)
             # with the temporaries gone the remaining locals line up
             more = recover_names(tree, modname, ref)
             if more:
@@ -789,6 +1075,17 @@ def normalize(tree, modname):
         if info.get("helpers_inlined") or n:
             renumber(tree)
     return info
+
+
+def _own_exprs(stmt):
+    """expression nodes of a statement, nested statements excluded"""
+    todo = [c for c in ast.iter_child_nodes(stmt)
+            if not isinstance(c, ast.stmt)]
+    while todo:
+        n = todo.pop()
+        yield n
+        todo.extend(c for c in ast.iter_child_nodes(n)
+                    if not isinstance(c, ast.stmt))
 
 
 def renumber(tree):
@@ -809,6 +1106,19 @@ def renumber(tree):
         stmts = [x for x in order if isinstance(x, ast.stmt)]
         mono = all((a.lineno, a.col_offset) < (b.lineno, b.col_offset)
                    for a, b in zip(stmts, stmts[1:]))
+        if mono:
+            # expressions of an inlined helper keep the helper's position
+            for st in stmts:
+                lo, hi = st.lineno, getattr(st, "end_lineno", None)
+                if hi is None:
+                    mono = False
+                    break
+                for sub in _own_exprs(st):
+                    if hasattr(sub, "lineno") and not lo <= sub.lineno <= hi:
+                        mono = False
+                        break
+                if not mono:
+                    break
         if mono:
             continue
         line = func.lineno
